@@ -4,7 +4,8 @@ from harness import ll_common as ll
 PROPERTY = "C01"
 STATEFUL = True
 READY = True
-THEOREMS = ["C01.run_sound", "C01.table_wf", "C01.factorize_ok", "C01.parse_valid", "C01.parse_from_valid", "C01.no_memory"]
+THEOREMS = ["C01.run_sound", "C01.table_wf", "C01.factorize_ok", "C01.factorize_ordered", "C01.parse_valid",
+            "C01.tokens_no_end", "C01.names_faithful", "C01.parse_from_valid", "C01.no_memory"]
 RULE = ("one case = one generated grammar (generators: unbiased / mostly non-left-recursive / shaped incl. 3-4 same-prefix "
         "alternatives in every order / LL(1)-ish / hidden recursion / DFS shapes / late FIRST-FOLLOW chains / malformed incl. "
         "reserved names; 1-6 non-terminals with permuted names; 11 token configurations: synonyms, keywords, default / explicit / "
@@ -16,7 +17,7 @@ TRUSTED = ["re (lexemes are found by the harness with the tokenizer's own patter
 ASSUMPTIONS = ["hypotheses of C01.parse_valid: the start symbol is one of the keys of `productions` (the constructor accepts "
                "start_symbol_name='E__S00', a helper key of the factorised dictionary; the root of the tree is then a helper "
                "symbol - kernel-evaluated example in Props/C01.lean; such start symbols are not generated); no lexeme is named "
-               "$END$ (synonyms/keywords do not map to the reserved name)",
+               "$END$ (C01.tokens_no_end: implied by `$END$` not being a group / synonym target / keyword target)",
                "Python names are decoded into structured symbols (base, helper path) by the model's parseSym"]
 
 
@@ -77,7 +78,8 @@ LEVEL_TEXT = ("Kernel-checked for ALL grammars, token lists and both smart_facto
               "LLParser.__init__ + parse: a returned tree is rooted at the start symbol, every inner node is one of the user's "
               "productions, leaves are exactly the non-skipped tokens, no helper symbol occurs (C01.parse_valid = soundness of "
               "the backtracking loop C01.run_sound + table well-formedness C01.table_wf + correctness of common-prefix "
-              "factorisation incl. the smart undo C01.factorize_ok); the same for parse(text, start_symbol_name=X) "
+              "factorisation incl. the smart undo C01.factorize_ok, which also keeps the order = priority of the alternatives, "
+              "C01.factorize_ordered); the same for parse(text, start_symbol_name=X) "
               "(C01.parse_from_valid); a parser object has no memory between calls (C01.no_memory: every request except "
               "construct/reset leaves the parser unchanged). model = code is established by a differential run: "
               "constructor outcome, is_ambiguous() and every raw tree / error class compared on generated grammars x all short "
